@@ -57,6 +57,23 @@ pub fn mirror(q: &Q) -> P {
     }
 }
 
+/// Other documented spellings the same parser recognises: brackets for vectors when
+/// brackets mean vectors, R6RS byte-vector prefix.
+pub fn mirror_alt(q: &Q) -> P {
+    P {
+        // keyword spelling as in mirror(): names are emitted verbatim, and a postfix
+        // spelling cannot carry a name whose first character selects another lexer arm
+        // (`#a:`); spellings on plain names are C02's subject
+        kw: mirror(q).kw,
+        nil: PNil::Token,
+        bool_symbol: false,
+        vec_brackets: q.brackets_vector,
+        bytes: PBytes::R6RS,
+        string: q.string,
+        chr: q.chr,
+    }
+}
+
 fn floats_exact(v: &Value) -> bool {
     !any_node(v, &|x| match x {
         Value::Number(n) if n.is_f64() => {
@@ -164,6 +181,7 @@ pub const LENIENT: &[&str] = &[
     "#\\x", "#\\x0", "#\\x10FFFF", "#\\λ", "#\\nul", "#\\delete", "#\\(", "#\\#", "#\\;", "#\\\"", "#\\'", "#\\ ", "\"\\x0;\"", "\"\\x10FFFF;\"", "\"\\|\"", "\"\\v\\f\"", "\"a\nb\"", "\"\t\"",
     "?\\^a", "?\\^Z", "?\\d", "?\\e", "?\\s", "?\\N{U+41}", "?\\u0041", "?\\U00000041", "?\\101", "?\\x41", "? ", "?\"", "?λ", "\"\\e\\d\\s\"", "\"\\^a\"", "\"\\101\"", "\"\\x41\"", "\"\\x41\\ b\"", "\"\\u00e9\\x41\"", "\"a\\\nb\"", "\"\\400\"", "\"\\x100\"", "\"\\q\"",
     "\"\\xe9;\"", "\"\\x80;\\xff;\"", "\"caf\\xe9;\"", "#\\xe9", "#\\x80", "?\\xe9", "\"\\351\"",
+    "0.0000001", "+1e-7", "#d5e-9", "0.00000123", "1e-7", "1.0e-7", "+1e21", "#d1e21",
     "-0", "+0", "-0.0", "00012", "1.50", "1.0e0", "1E3", "#e1", "#x-0", "#b-101", "#o777", "#d0012", "#xABCDEF", "18446744073709551616", "-9223372036854775809", "1e-400", "0.1e1",
 ];
 
@@ -239,7 +257,11 @@ pub fn sets(ctx: &Ctx) -> Vec<CaseSet> {
                 3 => check(rep, &input, &Q::elisp(), &mirror(&Q::elisp()), tag, nofast),
                 _ => {
                     let q = Q::from_index(rng.below(N_Q));
-                    check(rep, &input, &q, &mirror(&q), tag, nofast)
+                    if rng.bool() {
+                        check(rep, &input, &q, &mirror(&q), tag, nofast)
+                    } else {
+                        check(rep, &input, &q, &mirror_alt(&q), tag, nofast)
+                    }
                 }
             }
         }),
@@ -256,6 +278,10 @@ pub fn sets(ctx: &Ctx) -> Vec<CaseSet> {
                 let p = mirror(&q);
                 check(rep, tok.as_bytes(), &q, &p, "lenient-alone", nofast);
                 check(rep, format!("({} x)", tok).as_bytes(), &q, &p, "lenient-in-list", nofast);
+                // as the last element of a vector / bracket form, printed with the alternative spellings
+                let pa = mirror_alt(&q);
+                check(rep, format!("#(x {})", tok).as_bytes(), &q, &pa, "lenient-last-in-vector", nofast);
+                check(rep, format!("[x {}]", tok).as_bytes(), &q, &pa, "lenient-last-in-brackets", nofast);
             }
         }),
     ));
